@@ -142,9 +142,14 @@ namespace verif
         // the storage lives in the world's region so that pointers into it can be projected;
         // the blocks cut from it are numbered by the logged_blocks wrapper
         std::size_t gap;
-        char*       mem = world().take(static_storage_size, 16, gap);
-        auto storage    = ::new (mem) static_storage;
+        std::size_t ssz = static_size_request() == 2048 ? 2048 : static_storage_size;
+        char*       mem = world().take(ssz, 16, gap);
         pending_src()   = src;
+        pending_range().lo = mem;
+        pending_range().hi = mem + ssz;
+        if (ssz == 2048) // a storage that a handful of blocks use up
+            return ::new (where) A(pre..., *::new (mem) fm::static_allocator_storage<2048>);
+        auto storage = ::new (mem) static_storage;
         return ::new (where) A(pre..., *storage);
     }
 
